@@ -11,6 +11,17 @@ BASE_NOTE = ("Trusted base: rustc front end/MIR construction as dumped by engine
              "crates assumed total. ")
 
 CLAIMS = {
+    "C15": dict(
+        category="proof",
+        technique="abstract interpretation of the bus stages per control word and address cell; path enumeration over the micro-program CFG; write-log counting",
+        text=("Per control word the data-path stages are interpreted with the address register in the RAM cell and in the I/O cell: "
+              "the wait flag is raised exactly for RAM accesses; a waiting edge consumes the flag and changes nothing else; the "
+              "micro-address is written exactly once per un-skipped edge. On the micro-CFG all data-condition outcomes of each of "
+              "the 1493 instruction forms have the same number of control words and the same sequence of bus accesses, the only "
+              "exceptions being the conditional relative jumps (two lengths), MUL and DIV; the interrupt entry has a fixed tail."),
+        note=("Decides the cost rule (micro-steps + one wait per RAM access, none for I/O) and its independence of history and step "
+              "mode. Not decided: the concrete cycle number of a concrete program (needs register values to classify each access)."),
+        design="3/C15"),
     "C11": dict(
         category="other",
         technique="abstract interpretation of the step function against scripted abstract clock edges (loop unrolling) + micro-program reachability analysis",
